@@ -6,7 +6,7 @@ RULE = ('real gloo process groups (file store, CPU) of W ranks running make_priv
         'vs a single-process DP optimizer on the union of the shards with the total expected batch size; torch.normal replaced by a deterministic function of (shape, std); '
         'a case = (world size, clipping/mode, loss reduction, shard sizes per step incl. empty shards for flat/ghost, model, seed); compared: parameters on every rank '
         '(pairwise, and with the reference, 1e-9), start parameters (broadcast from rank 0), per-rank expected batch size; probe cases (zero-weight linear layer, huge C) '
-        'are additionally compared with the generated release evaluated on binary64 in Coq; non-trivial = at least two ranks with data; distinct by canonical JSON')
+        'are additionally compared with the generated release evaluated on binary64 in Coq; the ghost adaptive engine under DDP with per-rank RNG streams: clipping norm, noise multiplier and parameters equal on all ranks after every step; non-trivial = at least two ranks with data; distinct by canonical JSON')
 ASSUMPTIONS = ['per-sample clipping of a shard does not depend on the other shards (C02)', 'gloo all_reduce(SUM) / broadcast are exact collectives',
                'torch DDP + tensor-hook interplay of DistributedPerLayerOptimizer is modelled from observation (accumulate twice, average)']
 TRUSTED = ['torch.normal stand-in (deterministic in shape and std) used on all ranks and in the reference', 'gloo transport, process scheduling: not modelled; hangs are reported as errors']
@@ -131,14 +131,41 @@ def run_group(ctx, W, n_per_kind, probes):
                 ctx.fail('dist-model-vs-impl', 'gradient on the ranks differs from the generated release (component case %d)' % i, owners[i])
 
 
+def run_adaptive(ctx, W, n):
+    """ghost-clipping adaptive engine under DDP: one clipping norm, one noise multiplier, one model on all ranks after every step"""
+    r = ctx.rng
+    cases = [{'seed': r.randint(0, 10**5), 'per_rank': r.choice([16, 24, 32]), 'B': r.choice([8, 16]), 'scale': r.choice([0.3, 1.0, 3.0]), 'sigma': r.choice([0.7, 1.0]),
+              'C': r.choice([0.3, 1.0]), 'q': r.choice([0.3, 0.5, 0.8]), 'lr': r.choice([0.2, 0.5])} for _ in range(n)]
+    res = vlib.run_impl('dist_ada.py', {'W': W, 'cases': cases, 'timeout': 240 + 30 * n}, timeout=600 + 60 * n)
+    ranks = res['ranks']
+    for i, c in enumerate(cases):
+        cw = dict(c, W=W, adaptive=True)
+        ctx.case(cw, nontrivial=True, kind='W%d/ghost-adaptive' % W)
+        rs = [rk[i] if rk else None for rk in ranks]
+        if any(x is None or x.get('error') for x in rs):
+            ctx.fail('dist-error', 'adaptive ghost engine under DDP raised or hung: %s' % [x.get('error') if x else 'no result' for x in rs][:2], cw)
+            continue
+        for k, name in (('C', 'clipping norm'), ('nm', 'noise multiplier')):
+            dis = max(maxdiff(x[k], rs[0][k]) for x in rs)
+            if dis > 1e-12:
+                step = next(j for j in range(len(rs[0][k])) if max(abs(x[k][j] - rs[0][k][j]) for x in rs) > 1e-12)
+                ctx.fail('dist-adaptive-%s-diverges' % k, 'ghost adaptive engine on %d ranks: %s differs between ranks after step %d: %s' % (W, name, step + 1, [x[k][step] for x in rs]), cw)
+        if max(maxdiff(x['w'], rs[0]['w']) for x in rs) > 1e-12:
+            ctx.fail('ranks-disagree', 'ghost adaptive engine: parameters differ between ranks', cw)
+    ctx.traces += len(cases)
+
+
 def run(ctx, gen_status):
     vlib.check_property_file(ctx, 'C18', gen_status, GENS)
     if ctx.thorough:
         for W in (1, 2, 3, 4):
             run_group(ctx, W, 4, 4)
+        for W in (2, 3):
+            run_adaptive(ctx, W, 6)
     else:
         run_group(ctx, 2, 1, 1)
         run_group(ctx, 3, 1, 1)
+        run_adaptive(ctx, 2, 2)
 
 
 def search(ctx):
@@ -151,6 +178,12 @@ def replay_case(ctx, failure):
     c = dict(failure['case'])
     W = c.pop('W')
     n0 = len(ctx.failures)
+    if c.pop('adaptive', False):
+        ctx2 = ctx
+        res = vlib.run_impl('dist_ada.py', {'W': W, 'cases': [c]}, timeout=600)
+        rs = [rk[0] if rk else None for rk in res['ranks']]
+        bad = [x for x in rs if x is None or x.get('error')] or [k for k in ('C', 'nm', 'w') if max(maxdiff(x[k], rs[0][k]) for x in rs) > 1e-12]
+        return not bad, bad or 'holds'
     rr = vlib.run_impl('dist_runs.py', {'W': W, 'cases': [c]}, timeout=600)['results'][0]
     judge(ctx, W, c, rr)
     new = [f for f in ctx.failures[n0:] if f['key'] != 'perlayer-hooks-world-size']
